@@ -8,6 +8,7 @@ mod inst;
 mod locks;
 mod methods;
 mod names;
+mod replicas;
 mod player;
 mod vk;
 
@@ -116,6 +117,9 @@ fn main() {
         "smoke" => smoke(),
         "play" => play(&args[2..]),
         "crash" => crash::run(&args[2], &args[3], args.get(4).and_then(|x| x.parse().ok()).unwrap_or(400), false),
+        "replicas" => replicas::run(&args[2], &args[3]),
+        "golden" => replicas::golden(&args[2], &args[3]),
+        "replica-child" => replicas::child(&args[2]),
         "gas" => gas::run(&args[2], args[3].parse().unwrap_or(1), args[4].parse().unwrap_or(20)),
         "cfggate" => cfggate::run(&args[2], &args[3]),
         "auth" => authgate::run(&args[2], &args[3]),
